@@ -11,7 +11,7 @@ from .. import dump, gen, aliasprobe
 
 ID = "C04"
 SUITE = "mutate+alias"
-LEAN_TARGETS = ["TypedpyModel.Props.C04", "TypedpyModel.Audit.C04"]
+LEAN_TARGETS = ["TypedpyModel.Props.C04", "TypedpyModel.Props.C04Alias", "TypedpyModel.Props.C04Subclass", "TypedpyModel.Audit.C04"]
 AUDIT = "C04"
 THEOREMS = re.findall(r"#print axioms (\S+)", open(__file__.rsplit("/harness/", 1)[0] + "/lean/TypedpyModel/Audit/C04.lean").read())
 RULE = ("(a) mutate suite on ImmutableStructure classes and classes with Immutable* fields: histories of setattr/del/"
@@ -192,8 +192,9 @@ def run_undefimm(case):
 
 
 def pre_build():
-    from extract import wrappers
+    from extract import wrappers, aliasing_c04
     wrappers.generate()
+    aliasing_c04.generate()
 
 
 def alias_cases(rng, n):
